@@ -516,8 +516,9 @@ def check(rep: Report, repo: Optional[Repo] = None) -> None:
     rule_mode(rep, cu, repo)
     rule_record(rep, cu, repo)
     # shared with C01: the wrap finding concerns layouts near the top of the address space
-    from .c01 import rule_addr_wrap
+    from .c01 import c_clones, rule_addr_wrap, rule_per_op_state
     rule_addr_wrap(rep, cu)
+    rule_per_op_state(rep, c_clones(cu, rep.tier))
     rep.not_decided.append('equality of final memory / outputs across layouts for all programs (value-level)')
 
 
